@@ -33,12 +33,12 @@ CHECKS = {
          "DESIGN.md §4 C18"),
  "C06": ("exploration",
          "runtime monitor: identity invariant (ptr::eq against the population's own elements) + documented-error table per configuration + panic capture, through every access path (direct, &S, Select operator, &dyn, Box<dyn>) and 13 weighted nestings with run-time chosen members",
-         "2e5 (quick) / 3e6 (thorough) random populations of size 0..9 (empty, singleton, all-equal, duplicate-laden, uneven result counts) x Best, Worst, Random, Tournament(k=1..n+2), Lexicase(cases 0..m+2, both polarities) x five access paths, every 4th round the same contract on VecDeque / LinkedList / BTreeSet / Box<[T]> / [T; N] populations, every 16th dynamic lists with usize weights whose total exceeds usize::MAX, every 40th round a large population (10..4099 members, tournament sizes around 8/16/32/64, sqrt(n), n/2, n-1, n, n+1, up to 34 cases), plus six random weighted combinations per population with weights incl. 0: Ok must be that very element, Err must be the documented error for that configuration (and must occur where documented), exactly one positive-weight member is used per selection. Dynamic weighted lists are also used while being built (selections, failing ones included, between extensions; judged against the weights at that moment). Plain-value populations with many ties under every tournament size.",
+         "2e5 (quick) / 3e6 (thorough) random populations of size 0..9 (empty, singleton, all-equal, duplicate-laden, uneven result counts) x Best, Worst, Random, Tournament(k=1..n+2), Lexicase(cases 0..m+2, both polarities) x five access paths, every 4th round the same contract on VecDeque / LinkedList / BTreeSet / Box<[T]> / [T; N] populations, every 16th dynamic lists with usize weights whose total exceeds usize::MAX, every 40th round a large population (10..4099 members, tournament sizes around 8/16/32/64, sqrt(n), n/2, n-1, n, n+1, up to 34 cases), plus six random weighted combinations per population with weights incl. 0: Ok must be that very element, Err must be the documented error for that configuration (and must occur where documented), exactly one positive-weight member is used per selection. Dynamic weighted lists are also used while being built (selections, failing ones included, between extensions; judged against the weights at that moment). Plain-value populations with many ties under every tournament size. Tournament sizes up to usize::MAX.",
          "Documented errors are recognised by their type names in the Debug rendering of nested error types.",
          "DESIGN.md §4 C06"),
  "C07": ("exploration",
          "runtime statistical monitor: exact winner law of 'uniform k-subset, return its best' checked with non-asymptotic Bernstein intervals (1e-10 per category), exact per-draw facts, and a subset monitor through a logging Ord that exposes the drawn k-subset itself",
-         "n = 1..7, every k = 1..n, and n in {10,13,16,20,33,64,81,100} x 16 tournament sizes (inclusion frequency of every individual and every pair instead of whole subsets), value patterns distinct / ties / all-equal / one-best, 1e6 (quick) / 2e7 (thorough) seeded draws each (a quarter for the large populations): value-class frequencies against [C(#<=v,k)-C(#<v,k)]/C(n,k), k=1 uniform over individuals, k=n always a best member, winner never among the k-1 worst, drawn subsets uniform over all C(n,k) subsets and winner maximal in the drawn subset; Best/Worst maximal/minimal on random populations with ties and on EcIndividual populations with uneven result lengths; per-draw facts also under 24 hostile random-stream prefixes.",
+         "n = 1..7, every k = 1..n, and n in {10,13,16,20,33,64,81,100} x 16 tournament sizes (inclusion frequency of every individual and every pair instead of whole subsets), value patterns distinct / ties / all-equal / one-best, 1e6 (quick) / 2e7 (thorough) seeded draws each (a quarter for the large populations): value-class frequencies against [C(#<=v,k)-C(#<v,k)]/C(n,k), k=1 uniform over individuals, k=n always a best member, winner never among the k-1 worst, drawn subsets uniform over all C(n,k) subsets and winner maximal in the drawn subset; Best/Worst maximal/minimal on random populations with ties and on EcIndividual populations with uneven result lengths; per-draw facts also under 24 hostile random-stream prefixes. Populations of 5000 and 500000 distinct values with tournaments of most of them.",
          "Decided up to the stated resolution (0.35% quick, 0.08% thorough at p=1/2); the acceptance region holds for any correct sampler.",
          "DESIGN.md §4 C07"),
  "C08": ("exploration",
@@ -48,17 +48,17 @@ CHECKS = {
          "DESIGN.md §4 C08"),
  "C10": ("exploration",
          "runtime monitor: tagged / complementary parents make the origin of every child gene readable; segment and mask coverage; exhaustive argument sweep of the exchange primitives with panic capture",
-         "TwoPointXo/UniformXo x four genome flavours x lengths {0..9,15..17,31..33,63..65,127..129,257,1000}, 5e5 (quick) / 1e7 (thorough) draws each (scaled down with the length): length, position-wise origin, one contiguous segment, every segment incl. both ends occurs (len<=6), the classes left-end / right-end / whole / inside occur on longer genomes when >= 600 such draws are expected, every uniform mask occurs; all ordered pairs of different lengths on all eight flavours must give DifferentGenomeLength(l1,l2); crossover_gene/crossover_segment for every index/range on genomes of length 0..4 (equal and different lengths): exact swap or error, never a panic, nothing else touched. Reversed ranges must not panic or modify either genome. Segment ranges up to usize::MAX must be refused as errors.",
+         "TwoPointXo/UniformXo x four genome flavours x lengths {0..9,15..17,31..33,63..65,127..129,257,1000}, 5e5 (quick) / 1e7 (thorough) draws each (scaled down with the length): length, position-wise origin, one contiguous segment, every segment incl. both ends occurs (len<=6), the classes left-end / right-end / whole / inside occur on longer genomes when >= 600 such draws are expected, every uniform mask occurs; all ordered pairs of different lengths on all eight flavours must give DifferentGenomeLength(l1,l2); crossover_gene/crossover_segment for every index/range on genomes of length 0..4 (equal and different lengths): exact swap or error, never a panic, nothing else touched. Reversed ranges must not panic or modify either genome. Segment ranges up to usize::MAX must be refused as errors. Complementary parents of 2^22 genes through both operators and flavours.",
          "Reversed and empty out-of-bounds ranges are exercised but not judged; the empty exchange is recorded, not demanded; empty ranges beyond the end of a genome must be errors.",
          "DESIGN.md §4 C10"),
  "C11": ("exploration",
          "runtime monitor: structural invariants on tagged genomes (parent genes carry positions, fresh genes carry serial numbers handed out by a counting generator), exact degenerate-rate cases",
-         "2e6 (quick) / 4e7 (thorough) UMAD mutations through all three constructors on Vector<tagged gene> and Plushy (parents with up to four Close genes, every assignment tried), lengths 0..40 (every 60th genome 63..4097; bit-flip also on 2^24+1 and 2^24+3 genes), rate grid incl. 0 and 1 and random rates; 5e5 / 1e7 bit-flip mutations (WithRate, WithOneOverLength) on Vec<bool>, Bitstring and a custom Not gene. UMAD on a million-gene parent at the extreme rates.",
+         "2e6 (quick) / 4e7 (thorough) UMAD mutations through all three constructors on Vector<tagged gene> and Plushy (parents with up to four Close genes, every assignment tried), lengths 0..40 (every 60th genome 63..4097; bit-flip also on 2^24+1 and 2^24+3 genes), rate grid incl. 0 and 1 and random rates; 5e5 / 1e7 bit-flip mutations (WithRate, WithOneOverLength) on Vec<bool>, Bitstring and a custom Not gene. UMAD on a million-gene parent at the extreme rates. WithRate on three million genes.",
          "Set membership of serial numbers decides 'drawn from the supplied generator during this call, at most once'.",
          "DESIGN.md §4 C11"),
  "C12": ("exploration",
          "runtime statistical monitor (Bernstein 1e-10 per category; p=0/p=1 exact; Hoeffding for mean child length) over 285 configurations of rates, lengths and generators",
-         "Per-gene flip frequency and adjacent-pair joint frequency for WithRate / WithOneOverLength; UMAD (through all three constructors, the empty-genome rate set far from both other rates) per-position deletion, aggregated additions a(1-d), the full joint law on one-gene parents, empty-parent additions for all three constructors, mean child length incl. d=a/(1+a); uniform crossover 1/2 and pair independence on four flavours; Bitstring::random*, BoolGenerator; GeneGenerator through all six public constructors: close frequency (explicit and default 1/(n+1), n=1..31) and instruction frequencies (uniform and skewed, direct and via a Plushy collection generator); lengths 100/200/1000 for bit-flip, random bitstrings and uniform crossover; the 1/length rate also on 3000..70000 genes (aggregated). 2e6 (quick) / 4e7 (thorough) samples per configuration before length scaling. BoolGenerator is also reconfigured through its public probability field after construction and after a draw. Default close probability also on instruction sets of 200000 and 2^20-1 instructions. Flip rates down to 2^-25, 1e-20 and f32::MIN_POSITIVE. WithRate on 4-6 million genes (aggregated).",
+         "Per-gene flip frequency and adjacent-pair joint frequency for WithRate / WithOneOverLength; UMAD (through all three constructors, the empty-genome rate set far from both other rates) per-position deletion, aggregated additions a(1-d), the full joint law on one-gene parents, empty-parent additions for all three constructors, mean child length incl. d=a/(1+a); uniform crossover 1/2 and pair independence on four flavours; Bitstring::random*, BoolGenerator; GeneGenerator through all six public constructors: close frequency (explicit and default 1/(n+1), n=1..31) and instruction frequencies (uniform and skewed, direct and via a Plushy collection generator); lengths 100/200/1000 for bit-flip, random bitstrings and uniform crossover; the 1/length rate also on 3000..70000 genes (aggregated). 2e6 (quick) / 4e7 (thorough) samples per configuration before length scaling. BoolGenerator is also reconfigured through its public probability field after construction and after a draw. Default close probability also on instruction sets of 200000 and 2^20-1 instructions. Flip rates down to 2^-25, 1e-20 and f32::MIN_POSITIVE. WithRate on 4-6 million genes (aggregated). UMAD rates on a two-million-gene parent.",
          "A bias below the stated resolution is invisible.",
          "DESIGN.md §4 C12"),
  "C13": ("exploration",
@@ -68,17 +68,17 @@ CHECKS = {
          "DESIGN.md §4 C13"),
  "C14": ("fault_enumeration",
          "runtime monitor: combinator-algebra reference evaluator vs the real combinators on random composition terms; leaf probes log (id, input, random word drawn through next_u32 / next_u64 / fill_bytes in turn); failure injected at every leaf call; error path read through Error::source() and Display",
-         "3e5 (quick) / 5e6 (thorough) random terms to depth 5 over then/and/map(pair|array|vec)/apply_n_times<0..3,5,8,17,33>/Identity/Constant on inputs incl. vectors of up to 100 elements, each with m <= 130 leaf calls run m+1 times (failure at each call and none): output, full call log (order, inputs, words), stream fingerprint, failing leaf and error path must match; six statically typed shapes; wrappers Select/Mutate/Recombine (by value/by reference), GenomeExtractor, GenomeScorer, Identity, Constant compared with the wrapped thing. All reference forms of the forwarding impls (&M, &&M, &mut M, &R, &&R, &S, &&S and the wrappers around them) are compared with the direct call. map / then_map over vectors of up to a million elements with and without a failing element.",
+         "3e5 (quick) / 5e6 (thorough) random terms to depth 5 over then/and/map(pair|array|vec)/apply_n_times<0..3,5,8,17,33>/Identity/Constant on inputs incl. vectors of up to 100 elements, each with m <= 130 leaf calls run m+1 times (failure at each call and none): output, full call log (order, inputs, words), stream fingerprint, failing leaf and error path must match; six statically typed shapes; wrappers Select/Mutate/Recombine (by value/by reference), GenomeExtractor, GenomeScorer, Identity, Constant compared with the wrapped thing. All reference forms of the forwarding impls (&M, &&M, &mut M, &R, &&R, &S, &&S and the wrappers around them) are compared with the direct call. map / then_map over vectors of up to a million elements with and without a failing element. apply_n_times::<64> over an input owning 1 GiB under the address-space limit.",
          "Combinator error types are unnameable outside ec-core, so the failing part is read from the documented Display texts; an unrecognised text is inconclusive.",
          "DESIGN.md §4 C14"),
  "C05": ("exploration",
          "runtime monitor: differential against an independent iterative reference parser plus direct statement checks (depth-first flattening == genome order; k opens followed by exactly k blocks; no block elsewhere; conversion returns)",
-         "Every gene string up to length 9 (quick) / 11 (thorough) over {Close, literal(position), When, DupBlock, IfElse} (built into a Plushy through every construction path, incl. iterators with astronomically large size hints) is translated by the real code and compared with the reference parser and the statement's structural rules; random genomes up to length 5000 with skewed symbol mixes (all opens, all closes, trailing opens); nesting depth to 2000 on ordinary threads and 20000 on a 1 GiB thread. The check runs as a supervised child (12 GiB address space, 150 s CPU per translation): a process death or hang while a genome is being translated is a violation. Exhaustive within the small scope, sampled beyond.",
+         "Every gene string up to length 9 (quick) / 11 (thorough) over {Close, literal(position), When, DupBlock, IfElse} (built into a Plushy through every construction path, incl. iterators with astronomically large size hints) is translated by the real code and compared with the reference parser and the statement's structural rules; random genomes up to length 5000 with skewed symbol mixes (all opens, all closes, trailing opens); nesting depth to 2000 on ordinary threads and 20000 on a 1 GiB thread. The check runs as a supervised child (12 GiB address space, 150 s CPU per translation): a process death or hang while a genome is being translated is a violation. Exhaustive within the small scope, sampled beyond. Long shallow genomes of 1e5 .. 1e6 genes.",
          "Literal genes carry their position so order is unambiguous; nesting beyond 20000 is bounded by the host stack and not judged.",
          "DESIGN.md §4 C05"),
  "C19": ("exploration",
          "runtime monitor over generated code: a reference type-state automaton produces random legal builder call sequences that are compiled and run (built state vs automaton record) for PushState and five fixture structs (incl. unusual field order and options split over several attributes); every call sequence up to a length bound is type-checked by one `cargo check --message-format=json` and rustc's accept/reject verdict per function is compared with what the statement requires",
-         "Run time: 400 (quick) / 3000 (thorough) random legal sequences incl. overflowing value lists, plus all declaration orders of up to 5 inputs, program order observed by running, an overflow boundary grid (capacity 0..5 x length 0..7 on every stack incl. the second values call), accessor consistency. Compile time: all sequences of up to 3 (quick) / 4 (thorough) calls + build() over a reduced alphabet for 5 structs (2.7e3 / 2.3e4 functions): must-compile sequences must be accepted, statement-named misuse (incomplete build, size change after data) must be rejected, everything else is recorded. Exact-size iterators announcing up to usize::MAX values onto empty / loaded, bounded / unbounded stacks must be reported as Overflow. Sizes 0, 1, around 2^32 / 2^63 and usize::MAX, set globally / individually / last-set-wins. The overflow error of an over-long program is the same whichever item type it is supplied as.",
+         "Run time: 400 (quick) / 3000 (thorough) random legal sequences incl. overflowing value lists, plus all declaration orders of up to 5 inputs, program order observed by running, an overflow boundary grid (capacity 0..5 x length 0..7 on every stack incl. the second values call), accessor consistency. Compile time: all sequences of up to 3 (quick) / 4 (thorough) calls + build() over a reduced alphabet for 5 structs (2.7e3 / 2.3e4 functions): must-compile sequences must be accepted, statement-named misuse (incomplete build, size change after data) must be rejected, everything else is recorded. Exact-size iterators announcing up to usize::MAX values onto empty / loaded, bounded / unbounded stacks must be reported as Overflow. Sizes 0, 1, around 2^32 / 2^63 and usize::MAX, set globally / individually / last-set-wins. The overflow error of an over-long program is the same whichever item type it is supplied as. Lazily produced programs announcing up to usize::MAX elements.",
          "The compile-time clause is decided by observing rustc, flagged as such in DESIGN.md; fixtures with >=2 stacks use !has_stack (generated HasStack impls fail coherence outside the push crate).",
          "DESIGN.md §4 C19"),
  "C01": ("exploration",
